@@ -136,9 +136,7 @@ def diff_record(a: dict, b: dict, la="A", lb="B", fields=None, skip_attrs=()) ->
         if field not in a or field not in b or field in ("attrs", "arrays"):
             continue
         va, vb = a[field], b[field]
-        if field == "pgs":
-            va = {k: {**v, "props": sorted(v["props"])} for k, v in va.items()}
-            vb = {k: {**v, "props": sorted(v["props"])} for k, v in vb.items()}
+        # property-group members compare in order: the order is stored and meaningful (channels, from/to)
         if field == "metadata":
             va, vb = va or None, vb or None
         if not same(va, vb):
